@@ -568,7 +568,58 @@ pub fn gen_wraparound_build(rng: &mut Rng) -> RunSpec {
 
 /// Two conversions that run at the same time in one directory (think `make -j`):
 /// different inputs, different outputs, both expected to succeed.
+/// A small `build` job for the concurrent pairs: its own input directory, a
+/// (possibly shared) output directory, stems that start with `tag`.
+fn duo_build(rng: &mut Rng, pool: &Pool, tag: &str, outdir: &str) -> RunSpec {
+    let mut files = vec![];
+    for k in 0..rng.urange(1, 4) {
+        let mask = GenMask(GenMask::swarm(rng).0 & !gen::G_FILE);
+        let (t, _) = gen::gen_input(rng, pool, mask);
+        files.push((format!("{}_src/{}{}.bob", tag, tag, k), t.replace('\0', "").into_bytes()));
+    }
+    RunSpec {
+        mode: Mode::Build(Build { pattern: Some(format!("{}_src/*.bob", tag)), outdir: Some(outdir.to_string()) }),
+        dirs: vec![format!("{}_src", tag)],
+        files,
+        stdin: None,
+        stdin_pipe: false,
+        fifos: vec![],
+        faults: vec![],
+        rand_seed: rng.next_u64() | 1,
+        env: vec![],
+        prior: vec![],
+    }
+}
+
 pub fn gen_duo(rng: &mut Rng, pool: &Pool) -> [RunSpec; 2] {
+    // a third of the pairs involve batch jobs: two builds into one (new) output
+    // directory, or a build next to a single conversion into that directory
+    if rng.chance(1, 3) {
+        let outdir = if rng.chance(1, 2) { "shared_out" } else { "deep/shared/out" };
+        let a = duo_build(rng, pool, "a", outdir);
+        let mut b = duo_build(rng, pool, "b", outdir);
+        if rng.chance(1, 2) {
+            // the second one is a single conversion writing next to the batch's outputs
+            let text = String::from_utf8_lossy(&b.files[0].1).to_string();
+            b = RunSpec {
+                mode: Mode::Convert(Convert { input: InputSel::Inline(text.replace('\n', "\\n")), opts: vec![], out: Some(format!("{}/b_single.svg", outdir)), out_long: false, positional_at: 0, extra_args: vec![] }),
+                dirs: vec![outdir.to_string()],
+                files: vec![],
+                ..b
+            };
+            if let Mode::Convert(c) = &b.mode {
+                if let InputSel::Inline(t) = &c.input {
+                    if t.starts_with('-') || t.is_empty() {
+                        // keep the command line simple: fall back to a tiny diagram
+                        let mut c2 = c.clone();
+                        c2.input = InputSel::Inline("+-+\\n| |\\n+-+".into());
+                        b.mode = Mode::Convert(c2);
+                    }
+                }
+            }
+        }
+        return [a, b];
+    }
     let mut out: Vec<RunSpec> = vec![];
     let dir = if rng.chance(1, 2) { String::new() } else { "work/".to_string() };
     for (i, tag) in ["a", "b"].iter().enumerate() {
